@@ -228,10 +228,11 @@ CAUSES = {
 }
 
 
-def gen_malformed(rng, kind):
+def gen_malformed(rng, kind, cause=None):
     """-> (args, cause)"""
     a = gen_valid(rng, kind)
-    cause = rng.choice([c for c, ks in CAUSES.items() if kind in ks])
+    if cause is None:
+        cause = rng.choice([c for c, ks in CAUSES.items() if kind in ks])
     if cause == "eff_const_range":
         a["eff"] = rng.choice([0, 0.0, -0.0, -ud(rng, 0.01, 1.0), float("%.7g" % (1.0 + sd(rng, 1e-6, 5))), 2, -1, False])
     elif cause == "eff_table_range":
@@ -472,7 +473,7 @@ def probe_point(rng, kind, a):
     drop = 0.0
     vd = a.get("vdrop")
     if isinstance(vd, dict):
-        drop = max(abs(x) for r in vd["vdrop"] for x in r)
+        drop = max([abs(x) for r in vd.get("vdrop", []) if isinstance(r, list) for x in r if isnum(x)] + [0.0])
     elif kind in ("vloss", "rectifier"):
         drop = mx(vd)
     if kind == "rectifier":
